@@ -1,4 +1,12 @@
-(* C16 — theorems in progress; this file is replaced as they are proved *)
-From AB Require Import Check.WorldCheck.
-Theorem c16_placeholder : True. Proof. exact I. Qed.
-Print Assumptions c16_placeholder.
+(* C16 — (b) on the model: the client-visible outcome of a recover-start request is the same
+   function of what the client already saw, whether or not the named account exists (partial:
+   (a) and (c) are decided by byte-level comparison of paired runs on the implementation). *)
+From AB Require Import World.Handlers Proofs.MonadInv Proofs.SameView.
+
+Theorem c16_recover_start_same_view : forall E, o_faults (e_O E) = [] -> forall h r h',
+  recover_start_post E h = (r, h') -> h_out h = None ->
+  valid [pid_rule E] [] (values E) = true -> q_badbody (e_req E) = false ->
+  (c_api (e_cfg E) = true -> q_meth (e_req E) <> GET) ->
+  r = Ok tt /\ view h' = ok_view E h.
+Proof. exact recover_start_view_lemma. Qed.
+Print Assumptions c16_recover_start_same_view.
